@@ -20,7 +20,7 @@ RULE = ("explicit-state search over operation histories (E3): a state is the his
         "loop by replaying the real LAN object against the reference V3 device. Events: send answered promptly / device silent / "
         "error packet / peer close / handshake unanswered / connect refused, explicit authenticate with good or unknown credentials, "
         "clock jump past the 12 h authentication lifetime, clock jumps past (and of 0.6x) the configured connection lifetime, cancellation of a "
-        "send at every interval between loop events. (a) full history tree without de-duplication to depth D1; (b) breadth-first "
+        "send and of an explicit authenticate at every interval between loop events. (a) full history tree without de-duplication to depth D1; (b) breadth-first "
         "search with de-duplication on a name-agnostic structural fingerprint of the library objects + device state to depth D2. "
         "A wire monitor (I1 only handshakes with the token before an accepted handshake; I2 data verifies under the session key of "
         "the latest accepted handshake and carries the device id; I3 counters +1 per connection; I4 re-handshake after expiry, new "
@@ -128,7 +128,7 @@ class Run:
             w.loop.jump(13 * 3600 if arg == "12h" else LIFETIME + 1 if arg == "life" else LIFETIME * 0.6)
             mark["outcome"] = "jumped"
             return
-        self.cur = arg if arg not in ("ok", "good", "bad", "cancel") else None
+        self.cur = arg if arg not in ("ok", "good", "bad", "cancel", "cancel-auth") else None
         if kind == "send":
             coro = self.lan.send(CMD)
         elif arg == "bad":
@@ -136,7 +136,7 @@ class Run:
         else:
             coro = self.lan.authenticate(self.token, self.key)
         t = asyncio.ensure_future(coro)
-        if arg == "cancel":
+        if arg in ("cancel", "cancel-auth"):
             w.loop.call_at(ev[2], t.cancel)
         try:
             res = await t
@@ -157,7 +157,7 @@ class Run:
         if self.trace_extra_send:
             self.w.loop.trace_instants = self.instants
             self.instants.append(self.w.now())
-            await self._op(("send", "ok"))
+            await self._op(("send", "ok") if self.trace_extra_send is True else ("auth", "good"))
             self.w.loop.trace_instants = None
 
     def cancel_points(self):
@@ -333,6 +333,8 @@ def menu(hist, run_with_trace: Run):
     if authed_once:
         for t in run_with_trace.cancel_points():
             evs.append(("send", "cancel", t))
+        for t in getattr(run_with_trace, "auth_cancel_points", []):
+            evs.append(("auth", "cancel-auth", t))
     return evs
 
 
@@ -352,10 +354,13 @@ def check_state(st: Stats, hist, life, want_menu=True):
     if want_menu:
         if authed_once:
             tr = Run(hist, life, trace_extra_send=True)
+            tr2 = Run(hist, life, trace_extra_send="auth")
             try:
+                tr.auth_cancel_points = tr2.cancel_points()
                 evs = menu(hist, tr)
             finally:
                 tr.close()
+                tr2.close()
         else:
             class _R:  # menu without cancel points
                 pass
